@@ -82,7 +82,7 @@ def _run_instance(inst):
         results = eng.explore(lambda: inst.fn(*inst.args))
     except core.EngineAbort as e:
         summary['error'] = f'{type(e).__name__}: {e}'
-        results = []
+        results = list(getattr(eng, 'partial_results', []))
     except Exception as e:
         summary['error'] = 'engine exception: ' + ''.join(traceback.format_exception_only(type(e), e)).strip() + \
                            ' @ ' + ' <- '.join(f'{f.name}:{f.lineno}' for f in traceback.extract_tb(e.__traceback__)[-4:])
